@@ -1031,5 +1031,13 @@ func (g *Gen) applyPure(c *FnCtx, pf *PureFunc, args []TV, env *Env) (TV, error)
 	if len(ts) == 0 {
 		return TV{Term{name, g.u.sortOf(ret)}, ret}, nil
 	}
-	return TV{mk(g.u.sortOf(ret), name, ts...), ret}, nil
+	app := mk(g.u.sortOf(ret), name, ts...)
+	// the value of an uninterpreted spec function is a value of its result type (integer range only:
+	// shallow, quantifier-free, and only where the application is closed - no bound variables)
+	if _, _, isInt := intRange(types.Unalias(ret)); isInt && c != nil && !strings.Contains(app.S, "q_") && !strings.Contains(app.S, "!") {
+		for _, f := range g.u.rangeFacts(app, ret, 0) {
+			c.define(f)
+		}
+	}
+	return TV{app, ret}, nil
 }
